@@ -57,6 +57,19 @@ Proof.
   repeat match goal with E : (c =? _) = false |- _ => rewrite E; clear E end. reflexivity.
 Qed.
 
+Lemma lex_operator_none_head' c t :
+  nolc (c :: t) -> lex_operator (c :: t) = None -> is_operator_char c = false.
+Proof.
+  unfold lex_operator. intros N H. rewrite N in H. unfold is_operator_char.
+  repeat (dmh H; try discriminate).
+  repeat match goal with E : (c =? _) = false |- _ => rewrite E; clear E end. reflexivity.
+Qed.
+
+Lemma tilde_front_nil' w : tilde_front w = [] -> w = [].
+Proof.
+  unfold tilde_front. destruct (parse_tilde false w) as [[[n name] sl]|]; [discriminate | auto].
+Qed.
+
 Section TokenRt.
   Variable inner : str -> res (str * str).
   Hypothesis inner_rt : forall s content r0 r0',
@@ -96,3 +109,75 @@ Section TokenRt.
     rewrite Hp in L1. cbn [app] in L1. rewrite L1. reflexivity.
   Qed.
 End TokenRt.
+
+Section TokenHead.
+  Variable inner : str -> res (str * str).
+  Hypothesis inner_rt : forall s content r0 r0',
+    inner s = Ok (content, r0) -> skip_lc r0 = c_rparen :: r0' ->
+    forall z, inner (content ++ c_rparen :: z) = Ok (content, c_rparen :: z).
+
+  (* the first character of a printed word token: not an operator character,
+     not a blank, not `#` *)
+  Lemma lex_token_head f s t r w :
+    lex_token inner f s = Ok (t, r) -> t_word t = tilde_front w -> w <> [] ->
+    lex_units inner f CWord DToken (skip_blanks_and_comment s) = Ok (w, r) ->
+    ok_word w = true ->
+    exists c y, print_word (t_word t) = c :: y /\ is_operator_char c = false /\
+                is_blank c = false /\ (c =? c_hash) = false.
+  Proof.
+    intros H Et Hw Eu Hk.
+    destruct (skip_blanks_and_comment_spec s) as [N0 B0].
+    unfold lex_token, bind in H.
+    destruct (lex_operator (skip_blanks_and_comment s)) as [[op r']|] eqn:Eop.
+    { inv H. cbn [t_word] in Et. symmetry in Et. apply tilde_front_nil' in Et. congruence. }
+    destruct (lex_rt inner inner_rt f) as (_ & _ & _ & _ & _ & _ & Hun).
+    destruct (Hun _ _ _ _ _ Eu Hk ltac:(discriminate)) as (_ & _ & _ & Hd & _).
+    destruct (Hd Hw) as (c & x & y & Hsx & Hp).
+    rewrite N0 in Hsx. rewrite Hsx in B0, Eop, N0. destruct B0 as [B1 B2].
+    rewrite Et, print_tilde_front, Hp. exists c, y. split; [reflexivity|].
+    split; [eapply lex_operator_none_head'; eauto | auto].
+  Qed.
+
+  Lemma lex_token_print_w f s t r w :
+    lex_token inner f s = Ok (t, r) -> t_word t = tilde_front w -> w <> [] ->
+    lex_units inner f CWord DToken (skip_blanks_and_comment s) = Ok (w, r) ->
+    ok_word w = true ->
+    forall z, nolc z -> stops DToken z -> last_fo_word CWord DToken w (hd z) ->
+      lex_token inner (S (S f)) (print_word (t_word t) ++ z)
+      = Ok (mkToken (t_word t) (token_id_of (t_word t) z) (print_word (t_word t) ++ z), z).
+  Proof.
+    intros H Et Hw Eu Hk z Hz Hs Hl.
+    destruct (skip_blanks_and_comment_spec s) as [N0 B0].
+    unfold lex_token, bind in H.
+    destruct (lex_operator (skip_blanks_and_comment s)) as [[op r']|] eqn:Eop.
+    { inv H. cbn [t_word] in Et. symmetry in Et. apply tilde_front_nil' in Et. congruence. }
+    clear H.
+    destruct (lex_rt inner inner_rt f) as (_ & _ & _ & _ & _ & _ & Hun).
+    destruct (Hun _ _ _ _ _ Eu Hk ltac:(discriminate)) as (_ & _ & _ & Hd & Rt).
+    destruct (Hd Hw) as (c & x & y & Hsx & Hp).
+    destruct (Rt z Hz Hs Hl) as [N1 L1].
+    rewrite Et, print_tilde_front. rewrite N0 in Hsx. rewrite Hsx in B0, Eop, N0.
+    destruct B0 as [B1 B2].
+    unfold lex_token, bind.
+    rewrite Hp in N1 |- *. cbn [app] in N1 |- *.
+    rewrite (skip_blanks_and_comment_id _ _ N1 B1 B2).
+    rewrite (lex_operator_head _ _ _ N0 N1 Eop).
+    rewrite Hp in L1. cbn [app] in L1. rewrite L1. reflexivity.
+  Qed.
+End TokenHead.
+
+(* a word token comes from a run of [lex_units] *)
+Lemma lex_token_word inner f s t r :
+  lex_token inner f s = Ok (t, r) -> t_word t <> [] ->
+  exists w, t_word t = tilde_front w /\ w <> [] /\
+            lex_units inner f CWord DToken (skip_blanks_and_comment s) = Ok (w, r) /\
+            t_id t = token_id_of (t_word t) r.
+Proof.
+  unfold lex_token, bind. intros H Hw.
+  destruct (lex_operator (skip_blanks_and_comment s)) as [[op r']|] eqn:Eop.
+  { inv H. cbn [t_word] in Hw. congruence. }
+  destruct (lex_units inner f CWord DToken (skip_blanks_and_comment s)) as [[w r']| | | |] eqn:Eu;
+    try discriminate.
+  inv H. cbn [t_word t_id] in *. exists w. repeat split; auto.
+  intros ->. apply Hw. reflexivity.
+Qed.
